@@ -65,3 +65,33 @@ CHECKS["C15"] = dict(
         level_note="Trusts ASan red zones as the overrun detector, and the harness's reading of the WOPN specification for what each version carries.",
     ),
 )
+
+CHECKS["C04"] = dict(
+    harnesses={"pbt": dict(src="c04_voices.cpp", cfg="asan", kind="rc")},
+    quick=[
+        dict(name="pbt", harness="pbt", workers=8, args=["--n", "1200", "--maxlen", "120"]),
+        dict(name="enum", harness="pbt", workers=8, args=["--mode", "enum", "--depth", "3"]),
+    ],
+    thorough=[
+        dict(name="pbt", harness="pbt", workers=16, args=["--n", "30000", "--maxlen", "200"], timeout=7200),
+        dict(name="enum", harness="pbt", workers=16, args=["--mode", "enum", "--depth", "4"], timeout=7200),
+    ],
+    rule="pbt: rapidcheck op sequences (profile 'voices': note on/off, CC64/66/120/121/123 and others, panic, reset-state, program/bank changes, bends, "
+         "time advance, arpeggio on/off, chip-count/emulator/chip-type changes, bank reload, reset, SysEx mode switches, blank/unblank instruments, "
+         "loading+ticking a small SMF) on 1-2 chips with few channels/keys so polyphony overflows; the six invariants I1-I6 are evaluated on a snapshot "
+         "of the private tables and the tap-reconstructed key state after EVERY op. Non-trivial = a note was accepted while every chip channel was busy "
+         "(eviction/arpeggio/evacuation) or a pedal/sostenuto-held user existed; distinct by FNV-64 of the serialised case. "
+         "enum: all sequences of the stated length over a 27-symbol alphabet (2 MIDI channels, 3 keys, 1 chip); non-trivial = a held user or a deferred drum release occurred.",
+    assumptions=[
+        "private state is read with -fno-access-control from the same headers the library was built from",
+        "chip key state is reconstructed from register 0x28 writes seen by the OPNMIDI_VERIF tap",
+        "blank placeholder notes are not counted by I4/I5 (they own no chip channel and no instrument)",
+    ],
+    min_nontrivial={"quick": 300, "thorough": 3000},
+    manifest=dict(
+        technique="invariant checking over generated API histories (rapidcheck) + bounded-exhaustive enumeration; invariants evaluated after every call",
+        level_text="Each clause of the property is an executable invariant over the live instance's private tables and the chip key state seen by the register tap; "
+                   "it is evaluated after every call of generated histories and of all short sequences over a small alphabet.",
+        level_note="Trusts the snapshot code's reading of the private structures and ASan for the memory side of dangling references.",
+    ),
+)
